@@ -157,61 +157,6 @@ Proof.
     apply truncate_app.
 Qed.
 
-(* ---- an expression without calls leaves the world as it is (it cannot print, assert or touch the stack) *)
-Section NoCall.
-Variable fns : list fn.
-
-Lemma nocall_args ev : (forall e w v w', expr_nocall e = true -> ev e w = IOk v w' -> w' = w) ->
-  forall l w vs w', (fix go (l : list expr) : bool := match l with [] => true | a :: r => expr_nocall a && go r end) l = true ->
-  iargs_with ev l w = IOk vs w' -> w' = w.
-Proof.
-  intros Hev. induction l as [|a r IH]; intros w vs w' Hl H; cbn [iargs_with] in H.
-  - inversion H. reflexivity.
-  - apply andb_true_iff in Hl. destruct Hl as [Ha Hr].
-    destruct (ev a w) as [v w1| | | |?] eqn:E1; cbn [ibind] in H; try discriminate.
-    destruct (iargs_with ev r w1) as [vs1 w2| | | |?] eqn:E2; cbn [ibind] in H; try discriminate.
-    inversion H; subst. rewrite (IH _ _ _ Hr E2). eapply Hev; eassumption.
-Qed.
-
-Lemma nocall_pure : forall fuel e w v w', expr_nocall e = true -> ieval fns fuel e w = IOk v w' -> w' = w.
-Proof.
-  induction fuel as [|fuel IH]; intros e w v w' NC H; [discriminate H|].
-  assert (PURE : forall e0 wa va wb, expr_nocall e0 = true -> ieval fns fuel e0 wa = IOk va wb -> wb = wa)
-    by (intros; eapply IH; eassumption).
-  Ltac pure_tac PURE :=
-    repeat match goal with
-           | E : ieval _ _ ?e0 ?wa = IOk _ ?wb |- _ => apply PURE in E; [|assumption]
-           end; congruence.
-  destruct e; cbn [ieval] in H; cbn [expr_nocall] in NC.
-  - inversion H; reflexivity.
-  - inversion H; reflexivity.
-  - inversion H; reflexivity.
-  - destruct (ilookup x (w_stk w)) as [[m u]|]; inversion H; reflexivity.
-  - ib H. inversion H; subst. pure_tac PURE.
-  - apply andb_true_iff in NC. destruct NC as [N1 N2]. destruct o.
-    all: try (ib H; ib H; first [apply of_ibin_ok in H; destruct H as [H _] | inversion H; subst]; pure_tac PURE).
-    + ib H. destruct (truthy v0).
-      * ib H. inversion H; subst. pure_tac PURE.
-      * inversion H; subst. pure_tac PURE.
-    + ib H. destruct (truthy v0).
-      * inversion H; subst. pure_tac PURE.
-      * ib H. inversion H; subst. pure_tac PURE.
-  - discriminate NC.
-  - apply andb_true_iff in NC. destruct NC as [NC N3]. apply andb_true_iff in NC. destruct NC as [N1 N2].
-    ib H. destruct (truthy v0); pure_tac PURE.
-  - destruct es as [|a r]; [inversion H; reflexivity|].
-    pose proof NC as NC'. apply andb_true_iff in NC'. destruct NC' as [Na _].
-    ib H. ib H. unfold i_arr in H. destruct (ints_of v1); inversion H; subst.
-    apply (nocall_args (ieval fns fuel) PURE (a :: r) _ _ _ NC) in E0. pure_tac PURE.
-  - apply andb_true_iff in NC. destruct NC as [N1 N2]. ib H. ib H.
-    assert (w' = w1).
-    { unfold i_at in H. destruct v1; try (inversion H; reflexivity). destruct v0; try (inversion H; reflexivity).
-      destruct (arr_get l z); inversion H; reflexivity. }
-    pure_tac PURE.
-  - ib H. inversion H; subst. pure_tac PURE.
-Qed.
-End NoCall.
-
 Section Agree.
 Variable fns : list fn.
 Variable gn : list ident.
@@ -414,12 +359,10 @@ Proof.
         eapply agree_bind with (P := Pe S asr); [eapply IHe; eassumption| |mono_tac].
         intros vc out1 vc' w1 [-> [l1 [Hl1 ->]]]. destruct vc as [z|[|]| |s0|l0]; try exact I; simpl;
           (eapply agree_Pe_ext; [exact Hl1|]; eapply IHe; eassumption).
-      * (* array literal: the evaluator evaluates the first element twice; it contains no call, so nothing shows *)
-        destruct es as [|a r]; [apply agree_ok_Pe0|].
-        simpl in PL. apply andb_true_iff in PL. destruct PL as [NC PL]. apply andb_true_iff in PL. destruct PL as [PLa PLr].
-        assert (PA : Forall (fun a0 => expr_plain a0 = true) (a :: r)).
-        { constructor; [exact PLa|]. clear - PLr. induction r as [|b r IH]; [constructor|].
-          apply andb_true_iff in PLr. destruct PLr as [H1 H2]. constructor; [exact H1|apply IH; exact H2]. }
+      * (* array literal: every element once, left to right, as in the reference *)
+        assert (PA : Forall (fun a0 => expr_plain a0 = true) es).
+        { simpl in PL. clear - PL. induction es as [|b r IH]; [constructor|].
+          apply andb_true_iff in PL. destruct PL as [H1 H2]. constructor; [exact H1|apply IH; exact H2]. }
         assert (ARGS : forall l out asr, Forall (fun a0 => expr_plain a0 = true) l ->
                   agree_with (Pe S asr)
                     ((fix eval_elems (l : list expr) (out0 : list N) : res (list value) :=
@@ -435,21 +378,9 @@ Proof.
             intros v out1 v' w1 [-> [l1 [Hl1 ->]]]. eapply agree_Pe_ext; [exact Hl1|].
             eapply agree_bind with (P := Pe S (asr0 ++ l1)); [apply IHr; assumption| |mono_tac].
             intros vs out2 vs' w2 [-> [l2 [Hl2 ->]]]. apply agree_ok_Pe. exact Hl2. }
-        pose proof (IHe genv base en outer a out asr G LO PLa) as HA. fold S in HA.
-        destruct (ieval fns fuel a (mkw S out asr)) as [v0 w0| | | |w0] eqn:E0; cbn [ibind].
-        -- (* the extra evaluation changes nothing *)
-           rewrite (nocall_pure fns _ _ _ _ _ NC E0).
-           eapply agree_bind with (P := Pe S asr); [exact (ARGS (a :: r) out asr PA)| |].
-           ++ intros vs out1 vs' w1 [-> [l1 [Hl1 ->]]]. unfold i_arr. destruct (ints_of vs); [apply agree_ok_Pe; exact Hl1|exact I].
-           ++ intros a' w' b' w'' F K. unfold i_arr in K. destruct (ints_of a'); inversion K; subst; exact F.
-        -- destruct (eval_expr fns fuel genv en a out) as [va o1|f o1| |]; cbn [bind];
-             [destruct HA as (? & ? & HH & _); discriminate HH|destruct f; try exact I; intros ? ? HH; discriminate HH|exact I|exact I].
-        -- destruct (eval_expr fns fuel genv en a out) as [va o1|f o1| |]; cbn [bind];
-             [destruct HA as (? & ? & HH & _); discriminate HH|destruct f; try exact I; intros ? ? HH; discriminate HH|exact I|exact I].
-        -- destruct (eval_expr fns fuel genv en a out) as [va o1|f o1| |]; cbn [bind];
-             [destruct HA as (? & ? & HH & _); discriminate HH|destruct f; try exact I; intros ? ? HH; discriminate HH|exact I|exact I].
-        -- destruct (eval_expr fns fuel genv en a out) as [va o1|f o1| |]; cbn [bind];
-             [destruct HA as (? & ? & HH & _); discriminate HH|destruct f; try exact I; intros ? ? HH; discriminate HH|exact I|exact I].
+        eapply agree_bind with (P := Pe S asr); [exact (ARGS es out asr PA)| |].
+        -- intros vs out1 vs' w1 [-> [l1 [Hl1 ->]]]. unfold i_arr. destruct (ints_of vs); [apply agree_ok_Pe; exact Hl1|exact I].
+        -- intros a' w' b' w'' F K. unfold i_arr in K. destruct (ints_of a'); inversion K; subst; exact F.
       * (* at *)
         simpl in PL. apply andb_true_iff in PL. destruct PL as [PL1 PL2].
         eapply agree_bind with (P := Pe S asr); [eapply IHe; eassumption| |].
